@@ -16,7 +16,7 @@ Set(k, v) == c' = [k |-> k, v |-> v]
 
 ArgStrings == {x \in SeqsUpTo({A, SP, SQ, DQ}, 2) : ~(Has(x, SQ) /\ Has(x, DQ))}
 Tokens == { <<DASH, A>>, <<DASH, A, B>>, <<DASH, DASH, A>>, <<DASH, DASH, A, EQS, B>>, <<DASH, DASH>>, <<DASH>>, <<B>>, <<>>,
-            <<DASH, DASH, A, EQS, SQ, B, SQ>>, <<DASH, DASH, EQS>>, <<DASH, DASH, A, EQS>>, <<DASH, DASH, A, EQS, DQ>> }
+            <<DASH, DASH, A, EQS, SQ, B, SQ>>, <<DASH, DASH, EQS>>, <<DASH, DASH, A, EQS>>, <<DASH, DASH, A, EQS, DQ>>, <<DASH, DASH, A, EQS, EQS, B>> }
 Decisions == [use : BOOLEAN, ret : BOOLEAN]
 
 LInit == c = [k |-> "none"]
